@@ -321,7 +321,12 @@ def run_C09(chk, with_proof=True):
                 if " =" in part:
                     mexec += part.split(" =", 1)[1].split()
             mexec.sort()
-            if sorted(executed) != mexec or (rc != 0) != (mfail == "1"):
+            if rc is not None and rc < 0 and set(executed) <= set(mexec):
+                # a pattern that selects exactly one test runs it in the runner's own process (run_single_test): when that
+                # test kills its process the runner is gone, with a failing status, and the libraries after it are not
+                # looked at.  RunnerTool.main_m does not model the death of the runner itself; nothing is silent here.
+                chk.count("runner-killed-by-the-single-test-it-ran-in-process")
+            elif sorted(executed) != mexec or (rc != 0) != (mfail == "1"):
                 chk.disagreement("%s: implementation exit %s executed %d tests, model fail=%s executed %d" % (" ".join(args), rc, len(executed), mfail, len(mexec)), rp)
             if sorted(executed) != sorted(want_exec):
                 notrun = sorted(set(want_exec) - set(executed))[:4]
